@@ -18,6 +18,7 @@ LEVEL = "model_checking"
 MOD = "mc.checks.c04"
 ZONE = "America/Chicago"
 OTHER_ZONE = "America/New_York"
+SAME_OFFSET_ZONE = "America/Regina"  # UTC-6 all year: same offset as America/Chicago throughout the Feb-Mar reporting data
 SPEC_DIR = os.path.join(env.VERIF_DIR, "spec", "tla")
 
 ASSUMPTIONS = [
@@ -27,7 +28,8 @@ ASSUMPTIONS = [
     "poor-fit one, every other is inherited from the baseline; stored = the object came out of from_json(to_json())",
     "when predict has several reasons to refuse at once (unfitted, foreign type, other timezone, disqualified) the statement only "
     "demands that it raises: the model's outcome is then 'SomeException'",
-    "'a timezone different from the baseline's' is exercised with America/New_York vs America/Chicago; another NAME for the same rules "
+    "'a timezone different from the baseline's' is exercised with America/New_York (different offset) and America/Regina (a different "
+    "zone that shares Chicago's UTC offset throughout the own_reporting data, 2022-02-01..03-12) vs America/Chicago; another NAME for the same rules "
     "(US/Central) is not enumerated because the statement does not say whether it is different",
     "the CalTRACK hourly wrapper has no sufficiency gate and is not one of the three gated families",
 ]
@@ -143,7 +145,7 @@ def new_model(family, settings):
 def predict_input(family, dtype, tz):
     import opendsm.eemeter as em
 
-    zone = ZONE if tz == "same" else OTHER_ZONE
+    zone = {"same": ZONE, "other": OTHER_ZONE, "other_same_offset": SAME_OFFSET_ZONE}[tz]
     if dtype == "frame":
         return ds.daily_frame(start="2022-02-01", days=40, tz=zone, wseed=3, seed=3)
     if dtype == "foreign":
